@@ -272,13 +272,13 @@ example : (match toFactory realCGraph realAux with
     | some fg => some (factoryOK fg realDescr, Factory.wf fg, (reachable fg).length)
     | none => none) = some (true, true, 19) := by decide +kernel
 
-example : (match compile fixedCfg ⟨true, true, true⟩ realCGraph, toFactory realCGraph realAux with
+example : (match compile fixedCfg { checkLater := true, checkBlock := true, bindResult := true } realCGraph, toFactory realCGraph realAux with
     | .ok c, some fg => some (execOK fg (appsOf c.order), (appsOf c.order).filter (callsInput fg 1), c.st.srcs.count 4)
     | _, _ => none) = some (true, [4], 1) := by decide +kernel
 
 /-- The tagged trace of the compiled program: four events (the factory call, two asserts, … ), exactly one of them produced
 by a caller of input 1: `in1((3,), name="add")`, tagged with node 4. -/
-example : (match compile fixedCfg ⟨true, true, true⟩ realCGraph, toFactory realCGraph realAux with
+example : (match compile fixedCfg { checkLater := true, checkBlock := true, bindResult := true } realCGraph, toFactory realCGraph realAux with
     | .ok c, some fg =>
       some (((taggedTrace { env := unbound } (sstmts c.st)).filter (byCallerOf fg 1)).map
         (fun p => (p.1, (callShape p.2).map (fun s => (s.2.1.length, s.2.2)))))
@@ -290,7 +290,7 @@ example : (match toFactory realCGraph realAux with
     | some fg => rootStable fg && castsPlain realCGraph fg 1
     | none => false) = true := by decide +kernel
 
-example : (match compile fixedCfg ⟨true, true, true⟩ realCGraph with
+example : (match compile fixedCfg { checkLater := true, checkBlock := true, bindResult := true } realCGraph with
     | .ok c =>
       ((execBlock { env := unbound } c.st.program).trace.filter (trackedCall (isInAtom 1))).map
         (fun ev => (callShape ev).map (fun s => (decide (s.1 = inAtom 1), s.2.1.length, s.2.2)))
